@@ -32,6 +32,7 @@ pub const F_COLLECT: u8 = 5; // request a collection from inside the finalizer
 pub const F_UNSTASH: u8 = 6; // release one program-held pointer (finalizers that keep releasing objects)
 pub const F_UPGRADE_STASH: u8 = 7; // upgrade the weak slot into a program-held place (weak-ptrs)
 pub const F_UPGRADE_SLOT1: u8 = 8; // upgrade the weak slot into the object's own traced slot 1 (weak-ptrs)
+pub const F_PROBE: u8 = 9; // try_unwrap / finalize_again on a unique program-held Cc from inside the finalizer (C12)
 pub const F_NBEHAV: u8 = 7;
 pub const F_NBEHAV_WEAK: u8 = 9;
 
@@ -40,6 +41,7 @@ pub const D_NONE: u8 = 0;
 pub const D_TEMP: u8 = 1; // create and release a temporary Cc inside the destructor (nested plain drop)
 pub const D_COLLECT: u8 = 2; // request a collection from inside the destructor
 pub const D_UPGRADE: u8 = 3; // upgrade the weak slot inside the destructor and keep the result (weak-ptrs)
+pub const D_PROBE: u8 = 4; // try_unwrap / finalize_again on a unique program-held Cc from inside the destructor (C12)
 pub const D_NBEHAV: u8 = 3;
 pub const D_NBEHAV_WEAK: u8 = 4;
 
@@ -110,9 +112,13 @@ pub struct World {
     pub phantom: [u16; MAXN],
     pub boxsz: [u64; MAXN],
     pub boxsz0: u64,
+    /// bytes of managed allocations the harness holds besides the nodes (probes)
+    pub extra_bytes: u64,
     /// `i` was unreachable from program-held pointers at some observation point since it was (re-)armed
     pub ever_unreachable: [bool; MAXN],
     pub addr: [usize; MAXN],
+    /// address of the managed allocation (as reported by the snapshot hook)
+    pub baddr: [usize; MAXN],
     pub n: usize,
 }
 
@@ -159,8 +165,10 @@ pub static mut W: World = World {
     phantom: [0; MAXN],
     boxsz: [0; MAXN],
     boxsz0: 0,
+    extra_bytes: 0,
     ever_unreachable: [false; MAXN],
     addr: [0; MAXN],
+    baddr: [0; MAXN],
     n: 0,
 };
 
@@ -288,6 +296,9 @@ impl Finalize for Node {
                     w.nested_collect += 1;
                 }
             }
+            F_PROBE => {
+                crate::h_api::nested_probe();
+            }
             F_UNSTASH => {
                 for i in 0..MAXN {
                     if w.stash[i].is_some() {
@@ -355,7 +366,7 @@ impl Drop for Node {
         if self.canary != CANARY + id as u32 {
             w.saw_dropped += 1;
         }
-        if cfg!(feature = "finalization") && w.armed[id] && !w.tainted {
+        if cfg!(feature = "finalization") && w.created[id] && w.armed[id] && !w.tainted {
             w.drop_unfinalized += 1;
         }
         self.canary = 0xDEAD_0000 + id as u32;
@@ -369,6 +380,9 @@ impl Drop for Node {
             D_TEMP => {
                 let c = Cc::new(9u32);
                 drop(c);
+            }
+            D_PROBE => {
+                crate::h_api::nested_probe();
             }
             D_COLLECT => {
                 let before = state::executions_count().unwrap_or(0);
@@ -453,6 +467,7 @@ pub fn new_node(i: usize) {
     }
     w.boxsz[i] = w.boxsz0;
     w.addr[i] = (&*c) as *const Node as usize;
+    w.baddr[i] = rust_cc::verif::snapshot(&c).addr;
     w.created[i] = true;
     w.h[i] = Some(c);
     if i >= w.n {
@@ -513,7 +528,7 @@ fn find_cc_to(id: usize) -> Option<Cc<Node>> {
 #[inline]
 fn node_ptr(j: usize) -> Option<*const Node> {
     let w = w();
-    if w.created[j] && w.drops[j] == 0 {
+    if w.created[j] && w.drops[j] == 0 && !w.unwrapped[j] {
         Some(w.addr[j] as *const Node)
     } else {
         None
@@ -821,11 +836,11 @@ pub fn oracle_complete(base: u32) {
         if !r[i] && !p[i] {
             check(w.drops[i] == 1, base + 21); // C02: reclaimed
         }
-        if w.drops[i] == 0 {
+        if w.drops[i] == 0 && !w.unwrapped[i] {
             bytes += w.boxsz[i];
         }
     }
-    check(state::allocated_bytes().unwrap_or(usize::MAX) as u64 == bytes, base + 22); // C02/C11
+    check(state::allocated_bytes().unwrap_or(usize::MAX) as u64 == bytes + w.extra_bytes, base + 22); // C02/C11
 }
 
 /// Collect until a call runs no finalizer and no destructor (at most `max` calls).
